@@ -135,10 +135,10 @@ theorem ntop6_enospc_iff (src d : List Nat) (size : Nat) (hsrc : ∀ j, src.getD
 -- 2001:db8::1  and ::ffff:1.2.3.4
 example : ntop6Text [0x20, 0x01, 0x0d, 0xb8, 0, 0, 0, 0, 0, 0, 0, 0, 0, 0, 0, 1]
     = .ok [50, 48, 48, 49, 58, 100, 98, 56, 58, 58, 49] := by
-  simp [ntop6Text, fmt6Loop, words, bestRun, scanStep, colon, fmtX16, hexDigit, List.range, List.range.loop]
+  simp [ntop6Text, fmt6Loop, words, bestRun, finishScan, scanStep, colon, fmtX16, hexDigit, List.range, List.range.loop]
 example : ntop6Text [0, 0, 0, 0, 0, 0, 0, 0, 0, 0, 0xff, 0xff, 1, 2, 3, 4]
     = .ok [58, 58, 102, 102, 102, 102, 58, 49, 46, 50, 46, 51, 46, 52] := by
-  simp [ntop6Text, fmt6Loop, words, bestRun, scanStep, colon, fmtX16, hexDigit, List.range, List.range.loop, embedV4, ntop4, fmt4, fmtU8, strscpy, strscpyLoop, cstr]
+  simp [ntop6Text, fmt6Loop, words, bestRun, finishScan, scanStep, colon, fmtX16, hexDigit, List.range, List.range.loop, embedV4, ntop4, fmt4, fmtU8, strscpy, strscpyLoop, cstr]
 
 /-! ## inet_pton6 -/
 
@@ -167,26 +167,46 @@ example : pton6 [58, 58, 102, 102, 102, 102, 58, 49, 46, 50, 46, 51, 46, 52]
 example : pton6 [58, 49] = none := by decide                                                               -- ":1"
 example : pton6 [49, 58, 58, 50, 58, 58, 51] = none := by decide                                           -- "1::2::3"
 
-/-! ## inet_ntop6 ∘ inet_pton6 round trip
+/-! ## inet_pton6 ∘ inet_ntop6 round trip -/
 
-  NOT proved in general.  Full statement kept visible as a `def`; what is proved instead:
-  * `ntop6_pton6_partial`: the round trip holds for every address whose printed text lies in the grammar with
-    that address as value (by completeness of `inet_pton6`); i.e. what is missing is exactly the lemma
-    "`inet_ntop6` prints a grammar text of its argument" (`Ipv6Text t src`), which needs the characterisation
-    of the best-zero-run scan and of the format loop;
-  * concrete instances of each kind of shape below (`example`s, evaluated by the kernel);
-  * the check (`checks/c18.py`) runs the round trip on the implementation and on the model for all 256
-    zero-word patterns x fill styles, the IPv4-embedded forms and random addresses.
--/
+/-- for every 16-byte address (all 2^128, every zero-run shape, both embedded-IPv4 forms) `inet_ntop6` prints a
+    text that `inet_pton6` parses back to exactly that address -/
+theorem ntop6_pton6 (src : List Nat) (hl : src.length = 16) (hby : ∀ x ∈ src, x < 256) :
+    ∃ t, ntop6Text src = .ok t ∧ pton6 t = some src := ntop6_pton6_all src hl hby
 
-/-- full statement (unproved): printing then parsing any 16-byte address gives the address back -/
-def ntop6_pton6_full_statement : Prop :=
-  ∀ src : List Nat, src.length = 16 → (∀ b ∈ src, b < 256) →
-    ∃ t, ntop6Text src = .ok t ∧ pton6 t = some src
+/-- … and the printed text is RFC 4291 text denoting that address -/
+theorem ntop6_in_grammar (src : List Nat) (hl : src.length = 16) (hby : ∀ x ∈ src, x < 256) :
+    ∃ t, ntop6Text src = .ok t ∧ Ipv6Text t src := by
+  obtain ⟨t, ht, hp⟩ := ntop6_pton6_all src hl hby
+  exact ⟨t, ht, pton6_sound t src hp⟩
 
-theorem ntop6_pton6_partial (src t : List Nat) (ht : ntop6Text src = .ok t) (hg : Ipv6Text t src) :
-    pton6 t = some src ∧ ∀ t', pton6 t' = some src → Ipv6Text t' src :=
-  ⟨pton6_complete t src hg, fun t' h => pton6_sound t' src h⟩
+/-- the zero run chosen for "::" is a run of at least two zero words inside the address (or none) -/
+theorem ntop6_best_run_is_zero_run (ws : List Nat) :
+    (bestRun ws).base = -1 ∨ (0 ≤ (bestRun ws).base ∧ 2 ≤ (bestRun ws).len ∧ (bestRun ws).base + (bestRun ws).len ≤ 8 ∧
+      ∀ j : Nat, (bestRun ws).base ≤ j → (j : Int) < (bestRun ws).base + (bestRun ws).len → ws.getD j 0 = 0) :=
+  bestRun_spec ws
+
+/-- through the API with a real buffer: a successful `uv_ip6_name` leaves a C string that `uv_ip6_addr` maps back -/
+theorem uv_ip6_name_addr_roundtrip (src dst : List Nat) (size : Nat) (hl : src.length = 16) (hby : ∀ x ∈ src, x < 256)
+    (hn : size ≤ dst.length) (hmax : size ≤ SSIZE_MAX + 1) (hok : (uvIp6Name src dst size).1 = 0) :
+    uvIp6Addr (cstr (uvIp6Name src dst size).2) = (0, src) := by
+  have hsrc : ∀ j, src.getD j 0 < 256 := getD_lt_of_all src hby
+  obtain ⟨t, ht, hp⟩ := ntop6_pton6_all src hl hby
+  obtain ⟨t', ht', _, hc⟩ := ntop6Text_ok src hsrc
+  rw [ht] at ht'; cases ht'
+  have hz : ∀ c ∈ t, c ≠ 0 := fun c h => okChar6_ne_zero c (hc c h)
+  have hnp : 37 ∉ t := by
+    intro h; have := hc 37 h; unfold OkChar6 at this; omega
+  have e : uvIp6Name src dst size = ntop6 src dst size := by
+    simp [uvIp6Name, uvInetNtop, AF_INET, AF_INET6]
+  rw [e, ntop6_spec src dst t size ht hz hn hmax] at hok ⊢
+  split at hok
+  · simp [UV_ENOSPC] at hok
+  · rename_i h
+    rw [if_neg h]
+    dsimp only
+    rw [cstr_append_nul _ _ hz]
+    simp [uvIp6Addr, hnp, uvInetPton6_nopct t hnp, hp, ofOpt]
 
 example : pton6 [50, 48, 48, 49, 58, 100, 98, 56, 58, 58, 49]
     = some [0x20, 0x01, 0x0d, 0xb8, 0, 0, 0, 0, 0, 0, 0, 0, 0, 0, 0, 1] := by decide
